@@ -2,6 +2,7 @@
 # usage: run_on_seed.sh <seed id> <property> [check args...]  -- applies seeded/<id>/patch.diff to the scratch worktree /tmp/mut (at /repo's HEAD),
 # runs ./check <property> against it (evidence of /repo is not touched), reverts
 ID=$1; P=$2; shift 2
+[ -d /tmp/mut ] || git -C /repo worktree add --detach /tmp/mut HEAD >/dev/null 2>&1
 git -C /tmp/mut checkout -q -- . && git -C /tmp/mut checkout -q --detach $(git -C /repo rev-parse HEAD) && git -C /tmp/mut apply /verif/seeded/$ID/patch.diff || { echo APPLY-FAILED; exit 3; }
 cd /verif; VERIF_REPO=/tmp/mut VERIF_WORK=/tmp/work_mut timeout ${T:-1500} ./check $P "$@" 2>&1 | grep -v "^WARN"
 echo "exit=${PIPESTATUS[0]}"
